@@ -29,14 +29,13 @@ func (c *BaseClient) Ping(ctx context.Context) error {
 		return err
 	}
 	chPingResp := make(chan *pktPingResp, 1)
-	sig.mu.Lock()
-	sig.chPingResp = chPingResp
-	sig.mu.Unlock()
+	sig.addPingResp(chPingResp)
 
 	pkt := pack(packetPingReq.b())
 
 	tReq := time.Now()
 	if err := c.write(pkt); err != nil {
+		sig.removePingResp(chPingResp)
 		return wrapError(err, "sending PINGREQ")
 	}
 	select {
